@@ -166,6 +166,29 @@ func c06LockedSection(fd *ast.FuncDecl) []string {
 	return out
 }
 
+// c06RangeBody: source text of the statements of the first `for … range` loop of fd.
+func c06RangeBody(fd *ast.FuncDecl) []string {
+	var out []string
+	done := false
+	if fd == nil || fd.Body == nil {
+		return out
+	}
+	ast.Inspect(fd.Body, func(n ast.Node) bool {
+		if done {
+			return false
+		}
+		if rs, ok := n.(*ast.RangeStmt); ok {
+			for _, st := range rs.Body.List {
+				out = append(out, c06src(st))
+			}
+			done = true
+			return false
+		}
+		return true
+	})
+	return out
+}
+
 func init() {
 	Register(Fact{Module: "C06", Gen: func(repo string) (string, error) {
 		_, cf, err := ParseFile(repo, "pkg/queue/constants.go")
@@ -275,6 +298,7 @@ func init() {
 		fmt.Fprintf(&sb, "def ackLock : String := %q\n", c06LockKind(ack))
 		fmt.Fprintf(&sb, "def setConsumedLock : String := %q\n", c06LockKind(FindFunc(cg, "consumerGroup", "SetConsumedSeq")))
 		fmt.Fprintf(&sb, "def setSeqLock : String := %q\n", c06LockKind(FindFunc(cg, "consumerGroup", "SetSeq")))
+		sb.WriteString("\ndef initConsumerGroupsLoop : List String := " + LeanStrList(c06RangeBody(FindFunc(fo, "fanOutQueue", "initConsumerGroups"))) + "\n")
 		// critical sections: which calls run inside the lock a method opens first
 		goc := FindFunc(fo, "fanOutQueue", "GetOrCreateConsumerGroup")
 		fmt.Fprintf(&sb, "\ndef getOrCreateLock : String := %q\n", c06LockKind(goc))
